@@ -74,6 +74,7 @@ def explore_cases(ctx, drv, interp):
             break
         case = with_empty_constant(rng, i) if i % 4 == 1 else fp.gen_case(rng, i)
         os.environ.pop(ENVVAR, None)
+        case.late = None   # this check re-runs quantize() itself; histories on the object are C14's subject
         res = fp.run_case(ctx, drv, case, graph_corr=False)
         fp.count_tags(ctx, case, res)
         ctx.case({"ops": [sg["ops"] for sg in case.info["subgraphs"]], "recipe": case.desc}, res["status"] == "ok")
